@@ -1,10 +1,215 @@
-import Gimli.Model.Line
-import Gimli.Spec.Line
-/-! # C04 (work in progress) -/
-namespace Gimli.Props.C04
-open Gimli Gimli.Line
+import Gimli.Lemmas.Line
+/-!
+# C04 — Line-number rows equal the DWARF state machine; sequences are consistent
 
-theorem reset_new (h : Params) : reset h (Row.new h) = Row.new h := by
-  simp [reset, Row.new]
+Property theorems only (helper lemmas live in `Gimli/Lemmas/Line.lean`). Every theorem is about
+the Model functions of `Gimli/Model/Line.lean` — the definitions the driver executes and the
+correspondence run ties to `src/read/line.rs` — and the Spec of `Gimli/Spec/Line.lean` (the
+DWARF §6.2 machine over unbounded integers).
+
+Quantifiers: every header parameter tuple (`Params`, constrained only by what
+`LineProgramHeader::parse` itself guarantees, `Params.Valid`), every byte string, every
+instruction list, every register state.
+-/
+namespace Gimli.Props.C04
+open Gimli Gimli.Line Gimli.Spec.Line
+
+/-! ## "For any input whatsoever, row addresses never decrease within a sequence and never
+exceed the address size" -/
+
+/-- **Monotone on every input.** For every header and every byte string, in the trace of
+`next_row()` calls: every returned row's address is at least the address of the previous returned
+row of the same sequence and at most the all-ones value of the address size. A sequence ends at a
+row with `end_sequence` — including one that `next_row` computed and swallowed because the row
+was tombstoned (`hidden`; see `monotone_observed_counterexample` for why this has to be said).
+Errors returned by `next_row` (the iteration goes on after an `execute` error) do not break the
+invariant. No hypothesis on the header at all. -/
+theorem monotone_any_input (h : Params) (bs : Bytes) :
+    MonoTrace h.addrSize 0 (trace h bs) := by
+  unfold trace
+  apply traceLoop_mono
+  · exact reset_endSequence h _
+  · exact Nat.zero_le _
+  · rw [reset_new]; simp [Row.new]
+
+/-- **Never beyond the address size**, unconditionally, for what the caller sees. -/
+theorem address_bound_any_input (h : Params) (bs : Bytes) (r : Row) (hr : Ev.row r ∈ run h bs) :
+    r.address ≤ onesSized h.addrSize := by
+  unfold run at hr
+  exact row_bound_of_trace _ _ 0 (monotone_any_input h bs) r (List.mem_filter.mp hr).1
+
+/-- **Monotone as observed** (sequences delimited by the `end_sequence` rows the caller actually
+receives) — partial: holds when no `end_sequence` row was swallowed as a tombstone.
+
+Full statement (FALSE for the code as it is, finding C04-1):
+`∀ h bs, MonoObserved h.addrSize 0 (run h bs)`. -/
+theorem monotone_observed_partial (h : Params) (bs : Bytes) (hne : NoHiddenEnd (trace h bs)) :
+    MonoObserved h.addrSize 0 (run h bs) :=
+  monoObserved_of_trace _ _ 0 (monotone_any_input h bs) hne
+
+/-- a usual header: version 4, 8-byte addresses, line_base −5, line_range 14, opcode_base 13 -/
+def hdr4 : Params where
+  endian := .little
+  format := .dwarf32
+  version := 4
+  addrSize := 8
+  minInstLen := 1
+  maxOps := 1
+  defaultIsStmt := true
+  lineBase := -5
+  lineRange := 14
+  opcodeBase := 13
+  stdLens := [0, 1, 1, 1, 1, 0, 0, 0, 1, 0, 0, 1]
+
+/-- a VLIW header: version 5, 4-byte addresses, min_inst_len 4, max_ops 3, opcode_base 10 -/
+def hdrVliw : Params where
+  endian := .big
+  format := .dwarf64
+  version := 5
+  addrSize := 4
+  minInstLen := 4
+  maxOps := 3
+  defaultIsStmt := false
+  lineBase := -3
+  lineRange := 12
+  opcodeBase := 10
+  stdLens := [0, 1, 1, 1, 1, 0, 0, 0, 1]
+
+example : hdr4.Valid := by decide
+example : hdrVliw.Valid := by decide
+
+/-- **Finding C04-1, pinned.** `set_address 0x5000; copy; set_address 0` (lower ⇒ tombstone)`;
+end_sequence` (swallowed, but the registers are reset)`; set_address 0x1000; copy; end_sequence`:
+the caller receives rows at 0x5000, 0x1000, 0x1000(end) — addresses go backwards inside what it
+can only see as one sequence. -/
+theorem monotone_observed_counterexample :
+    ¬ MonoObserved 8 0 (run hdr4
+      [0, 9, 2, 0, 0x50, 0, 0, 0, 0, 0, 0,  1,  0, 9, 2, 0, 0, 0, 0, 0, 0, 0, 0,  0, 1, 1,
+       0, 9, 2, 0, 0x10, 0, 0, 0, 0, 0, 0,  1,  0, 1, 1]) := by
+  decide
+
+/-! ## special opcodes: all 256 opcode values × all header parameters -/
+
+/-- §6.2.5.1 read backwards: the opcode the standard prescribes for a desired line increment and
+operation advance, `(line_increment − line_base) + line_range·operation_advance + opcode_base`,
+is decoded by `exec_special_opcode`'s arithmetic into exactly that pair — for every header. -/
+theorem special_opcode_inverse (h : Params) (lineInc : Int) (opAdv : Nat)
+    (hlr : 0 < h.lineRange) (hlo : h.lineBase ≤ lineInc) (hhi : lineInc < h.lineBase + h.lineRange) :
+    let opcode := (lineInc - h.lineBase).toNat + h.lineRange * opAdv + h.opcodeBase
+    adjustOpcode h opcode / h.lineRange = opAdv ∧
+    h.lineBase + ((adjustOpcode h opcode % h.lineRange : Nat) : Int) = lineInc := by
+  intro opcode
+  have hx : (lineInc - h.lineBase).toNat < h.lineRange := by omega
+  have hadj : adjustOpcode h opcode = (lineInc - h.lineBase).toNat + h.lineRange * opAdv := by
+    simp only [adjustOpcode, opcode]; omega
+  rw [hadj, Nat.add_mul_div_left _ _ hlr, Nat.add_mul_mod_self_left, Nat.div_eq_of_lt hx,
+    Nat.mod_eq_of_lt hx]
+  omega
+
+/-- **Every special opcode, every header, every state.** For all valid header parameters
+(min_inst_len 1..255, max_ops 1..255, line_base −128..127, line_range 1..255, opcode_base 1..255,
+address size 1/2/4/8), every opcode value `opcode_base ≤ opcode ≤ 255` and every register state
+that is not tombstoned: `exec_special_opcode` adds `line_base + (adjusted mod line_range)` to the
+line (clamped at 0, wrapping at 2^64 as the `u64` register does) and moves the operation pointer
+by `adjusted / line_range` exactly as §6.2.5.1 says, or reports `AddressOverflow` — leaving the
+address untouched — exactly when the new address does not fit the address size. -/
+theorem special_opcode_table (h : Params) (hv : h.Valid) (opcode : Nat)
+    (hop : h.opcodeBase ≤ opcode ∧ opcode ≤ 255) (row : Row) (hnt : row.tombstone = false)
+    (hidx : row.opIndex < h.maxOps) (hl : row.line < 2 ^ 64) :
+    let adjusted := opcode - h.opcodeBase
+    let lineInc : Int := h.lineBase + ((adjusted % h.lineRange : Nat) : Int)
+    let opAdv := adjusted / h.lineRange
+    let newLine : Int := (row.line : Int) + lineInc
+    let line' := if newLine < 0 then 0 else newLine.toNat % 2 ^ 64
+    let address' := row.address + h.minInstLen * ((row.opIndex + opAdv) / h.maxOps)
+    let opIndex' := (row.opIndex + opAdv) % h.maxOps
+    execSpecial h row opcode =
+      if address' ≤ onesSized h.addrSize then
+        ({ row with line := line', opIndex := opIndex', address := address' }, none)
+      else ({ row with line := line', opIndex := opIndex' }, some .rAddressOverflow) := by
+  intro adjusted lineInc opAdv newLine line' address' opIndex'
+  obtain ⟨_, _, hsz, hmin1, hmin2, hmax1, hmax2, hlb1, hlb2, hlr1, hlr2, hob1, hob2, _, _⟩ := hv
+  have hadv : opAdv ≤ 255 := by
+    have : adjusted / h.lineRange ≤ adjusted := Nat.div_le_self _ _
+    omega
+  have hq : (row.opIndex + opAdv) / h.maxOps ≤ 510 := by
+    have : (row.opIndex + opAdv) / h.maxOps ≤ row.opIndex + opAdv := Nat.div_le_self _ _
+    omega
+  have hprod : h.minInstLen * ((row.opIndex + opAdv) / h.maxOps) ≤ 255 * 510 :=
+    Nat.mul_le_mul hmin2 hq
+  have hA := applyLineAdvance_eq row lineInc hl
+  show applyOperationAdvance h (applyLineAdvance row lineInc) opAdv = _
+  rw [hA]
+  exact applyOperationAdvance_eq h { row with line := line' } opAdv hnt (by omega) hmax1 hidx
+    (by simp only; omega) (by simp only; omega)
+
+/-- under the well-formedness conditions (the new line stays in `0 .. 2^64`, the new address fits)
+this is literally the Spec's special-opcode equation of §6.2.5.1 -/
+theorem special_opcode_refines (h : Params) (hv : h.Valid) (opcode : Nat) (r : Regs)
+    (hidx : r.opIndex < h.maxOps) (hr : RegsOk h r = true)
+    (hop : InstrOk h (.special opcode) = true)
+    (hr' : RegsOk h (step h r (.special opcode)).1 = true) :
+    execute h (toRow r) (.special opcode) = (toRow (step h r (.special opcode)).1, .emit) :=
+  (execute_spec h hv r (.special opcode) hidx hr hop rfl hr').1
+
+/-! ## "for every well-formed line-number program the emitted rows are exactly those of the DWARF
+line-number state machine" -/
+
+/-- **Rows refine the Spec.** For every valid header and every byte string that the instruction
+decoder (`LineInstruction::parse`, iterated) decodes completely into a program `prog` that is
+well-formed (`WF`: operands encodable, no register leaves its width, the line never goes below 0,
+`set_address` never goes backwards inside a sequence and is not a tombstone), what the caller
+receives from `next_row()` is exactly the matrix of the DWARF §6.2 machine, row by row, register by
+register, with no error and nothing swallowed. Covers min_inst_len/max_ops 1..255 (VLIW `op_index`
+arithmetic), line_base −128..127, line_range 1..255, opcode_base 1..255 with arbitrary
+`standard_opcode_lengths`, unknown standard/extended opcodes, address sizes 1/2/4/8. -/
+theorem rows_refine (h : Params) (hv : h.Valid) (bs : Bytes) (prog : List Instr)
+    (hdec : decodeAll h (bs.length + 1) bs = .ok prog) (hwf : WF h prog = true) :
+    run h bs = (rows h prog).map (fun r => Ev.row (toRow r)) := by
+  unfold run trace
+  rw [traceLoop_decodeAll h _ _ _ _ hdec, reset_new]
+  have hinit : Row.new h = toRow (init h) := by simp [Row.new, toRow, init]
+  have hmax1 : 1 ≤ h.maxOps := hv.2.2.2.2.2.1
+  rw [hinit, traceInstrs_spec h hv prog (init h) (by simp [init]; omega)
+    (by rw [regsOk_iff]; simp [init]; exact Nat.two_pow_pos _) hwf]
+  simp only [rows, List.filter_map, Ev.visible, Function.comp_def]
+  congr 1
+  exact List.filter_eq_self.mpr (fun _ _ => rfl)
+
+/-! ### non-vacuity of `rows_refine`: concrete programs that decode, are well-formed, and whose
+matrix is what one computes by hand from §6.2 -/
+
+def prog4 : List Instr :=
+  [.setAddress 0x1000, .copy, .special 0x4b, .advancePc 3, .advanceLine 10, .setColumn 7,
+   .special 0xf1, .constAddPc, .fixedAddPc 0x100, .setDiscriminator 5, .copy, .endSequence,
+   .setAddress 0x2000, .special 20, .endSequence]
+
+def bytes4 : Bytes :=
+  [0, 9, 2, 0, 0x10, 0, 0, 0, 0, 0, 0,  1,  0x4b,  2, 3,  3, 10,  5, 7,  0xf1,  8,  9, 0, 1,
+   0, 2, 4, 5,  1,  0, 1, 1,  0, 9, 2, 0, 0x20, 0, 0, 0, 0, 0, 0,  20,  0, 1, 1]
+
+example : decodeAll hdr4 (bytes4.length + 1) bytes4 = .ok prog4 := by decide
+example : WF hdr4 prog4 = true := by decide
+example : encodeProg hdr4 prog4 = bytes4 := by decide
+example : (rows hdr4 prog4).map (fun r => (r.address, r.line, r.endSequence)) =
+    [(0x1000, 1, false), (0x1004, 2, false), (0x1017, 11, false), (0x1128, 11, false),
+     (0x1128, 11, true), (0x2000, 3, false), (0x2000, 3, true)] := by decide
+
+/-- VLIW: min_inst_len 4, max_ops 3, opcode_base 10, big-endian 4-byte addresses, an unknown
+extended opcode in the middle -/
+def progV : List Instr :=
+  [.setAddress 0x100, .special 100, .special 255, .advancePc 7, .copy,
+   .unknownExtended 0x80 [1, 2, 3], .constAddPc, .special 10, .endSequence]
+
+def bytesV : Bytes :=
+  [0, 5, 2, 0, 0, 1, 0,  100,  255,  2, 7,  1,  0, 4, 128, 1, 2, 3,  8,  10,  0, 1, 1]
+
+example : decodeAll hdrVliw (bytesV.length + 1) bytesV = .ok progV := by decide
+example : WF hdrVliw progV = true := by decide
+example : (rows hdrVliw progV).map (fun r => (r.address, r.opIndex, r.line, r.endSequence)) =
+    [(264, 1, 4, false), (292, 0, 6, false), (300, 1, 6, false), (328, 0, 3, false),
+     (328, 0, 3, true)] := by decide
+example : run hdrVliw bytesV = (rows hdrVliw progV).map (fun r => Ev.row (toRow r)) :=
+  rows_refine hdrVliw (by decide) bytesV progV (by decide) (by decide)
 
 end Gimli.Props.C04
